@@ -79,6 +79,11 @@ def check_decision(model, rep):
         bad, atoms = truth_table(paths, dnf)
         if bad is None:
             rep.cannot('C13.lock-table', f'Solver.{dec.name}[{name}]', f'too many atoms ({len(atoms)})', dec.loc)
+        elif bad and any(k[0] in ('truth', 'opaque') and '(' in str(k[1]) and not str(k[1]).startswith("('self.") for k in atoms):
+            # the decision reads something the evaluator does not follow (a comparison picked from a table and called through an
+            # attribute: `direction.along(pwm, 0)`): its atoms are not the specification's - undecided, not a verdict
+            odd = [str(k[1])[:50] for k in atoms if k[0] in ('truth', 'opaque') and '(' in str(k[1]) and not str(k[1]).startswith("('self.")]
+            rep.cannot('C13.lock-table', f'Solver.{dec.name}[{name}]', f'the decision is written with calls the evaluator does not follow: {odd[:2]}', dec.loc)
         elif bad:
             a, why = bad[0]
             rep.violation('C13.lock-table', f'Solver.{dec.name}[{name}]',
